@@ -107,7 +107,7 @@ def main(argv):
         ck.coq_gates([], TODAY_THEOREMS, "EV.C29.Today")
     if bins:
         if ok or os.path.exists(os.path.join(COQ, "theories/C29/Corr.vo")):
-            cases = [c for c in run(ck, bins["c29"], "corr", ck.scale(5, 60)) if "obs" in c]
+            cases = [c for c in run(ck, bins["c29"], "corr", ck.scale(5, 40)) if "obs" in c]
             failing = ck.coq_failing("corr", [to_case(c) for c in cases], ["Coq.Lists.List", "Coq.NArith.NArith", "EV.C29.Model", "EV.C29.Corr"], check_fn="check_caseN", case_type="caseN",
                                      prelude="Import ListNotations.")
             for i in failing or []:
@@ -119,7 +119,7 @@ def main(argv):
             ck.cov["distribution"]["corr_histories"] = len(cases)
         if ck.broken:
             ck.deep = True
-        for v in run(ck, bins["c29"], "search", ck.scale(6, 80)):
+        for v in run(ck, bins["c29"], "search", ck.scale(6, 60)):
             if "summary" in v:
                 ck.cov["distribution"]["search"] = v["summary"]
                 ck.add_measured(v["summary"]["histories"], v["summary"]["distinct_nontrivial"])
